@@ -58,3 +58,40 @@ Theorem C07_dense :
     (ltb (rhoZ AR (fun _ _ => PStd) W tend p t) (azero AR) = true -> satZ AR W tend p t = false).
 Proof. exact @satZ_sound. Qed.
 Print Assumptions C07_dense.
+
+(* second half of the property: the robustness is 1-Lipschitz in the trace for predicates that compare one
+   variable with a constant, so a perturbation smaller than |rho| keeps the verdict.  up / dn are "+ eps" /
+   "- eps" for one fixed eps >= 0 (ShiftLaws), instantiated for the executable instance below. *)
+From RV Require Import Lipschitz LipschitzExtZ.
+Theorem C07_lipschitz :
+  forall (VS : Val) (AR : Arith VS) (up dn : V -> V) (okc : V -> Prop), ShiftLaws AR up dn okc ->
+  forall (w w' : trace) (n : nat),
+    (forall x i, Val.leb (dn (sig w x i)) (sig w' x i) = true /\ Val.leb (sig w' x i) (up (sig w x i)) = true) ->
+  forall p, simple okc p -> forall t,
+    Val.leb (dn (rho AR (fun _ _ => PStd) p w n t)) (rho AR (fun _ _ => PStd) p w' n t) = true /\
+    Val.leb (rho AR (fun _ _ => PStd) p w' n t) (up (rho AR (fun _ _ => PStd) p w n t)) = true.
+Proof. exact @rho_lipschitz. Qed.
+Print Assumptions C07_lipschitz.
+
+Theorem C07_robust :
+  forall (VS : Val) (AR : Arith VS), SignLaws AR ->
+  forall (up dn : V -> V) (okc : V -> Prop), ShiftLaws AR up dn okc ->
+  forall (w w' : trace) (n : nat),
+    (forall x i, Val.leb (dn (sig w x i)) (sig w' x i) = true /\ Val.leb (sig w' x i) (up (sig w x i)) = true) ->
+  forall p, simple okc p -> is_bool p = true -> forall t,
+    (ltb (azero AR) (dn (rho AR (fun _ _ => PStd) p w n t)) = true -> sat AR p w' n t = true) /\
+    (ltb (up (rho AR (fun _ _ => PStd) p w n t)) (azero AR) = true -> sat AR p w' n t = false).
+Proof. exact @robust_verdict. Qed.
+Print Assumptions C07_robust.
+
+Example C07_robust_nonvacuous :
+  ShiftLaws ExtZArith (ez_up 2) (ez_dn 2) ez_fin /\
+  let p : @formula ExtZVal := Since (Pred CGeq (Var 0) (Const (Fin 1))) (AlwT 0 1 (Not (Pred CLt (Var 0) (Const (Fin 0))))) in
+  let w := [[Fin 8; Fin 5; Fin 9; Fin 7]] in
+  let w' := [[Fin 6; Fin 7; Fin 8; Fin 9]] in
+  simple ez_fin p /\ is_bool p = true /\
+  rho ExtZArith (fun _ _ => PStd) p w 4 2 = Fin 7 /\ sat ExtZArith p w' 4 2 = true.
+Proof.
+  split; [apply ExtZ_shift_laws; lia|]. cbv zeta. split; [cbn; repeat split; eexists; reflexivity|].
+  repeat split; vm_compute; reflexivity.
+Qed.
